@@ -2,17 +2,23 @@
 (* Exhaustive exploration of EditingSys: every starting document of a family                     *)
 (*   catalog, root Pages, optional intermediate Pages, 1-3 pages (Kids / Count / Parent),         *)
 (*   page A's Contents in the shapes {single reference, array of 1, array of 2, array naming one  *)
-(*   stream twice, reference to an array, missing},                                               *)
-(*   Resources {none, on the root (inline / behind a reference), on the page (inline / behind a   *)
-(*   reference), on both}, an annotation array on page A ([a] / [a a]), an Info dictionary in the  *)
-(*   trailer, an image stream whose dictionary references a mask stream, 0-1 pending bookmarks    *)
-(* times every sequence of at most MaxDepth calls with arguments drawn from the live ids.         *)
+(*   stream twice, reference to an array, missing, one stream shared with page B, a stream that   *)
+(*   does not decode},                                                                            *)
+(*   Resources {none, on the root (inline / behind a reference / with a category behind a          *)
+(*   reference / with an XObject already named X<next object number>), on the page (inline /       *)
+(*   behind a reference), on both, one object shared by pages A and B}, an annotation array on     *)
+(*   page A ([a] / [a a]), an Info dictionary in the trailer, an image stream whose dictionary      *)
+(*   references a mask stream, 0-1 pending bookmarks                                               *)
+(* times every sequence of at most MaxDepth calls with arguments drawn from the live ids           *)
+(* (delete_pages: single, unsorted, repeated, out-of-range and zero page numbers).  Content        *)
+(* streams hold one operation per line ("A\n"); Editing!DecodeM / EncodeM stand for lopdf's         *)
+(* Content::decode / encode on that alphabet.                                                      *)
 (*                                                                                                *)
 (* Refines:  every step's verdict (Editing!Judge on the impl-shaped step) has its violations in   *)
-(*           Allowed when the behaviour runs "as the code is" (dev = DevAsIs; Allowed lists       *)
-(*           exactly the signatures of the known findings), in Allowed + FormerFindings when the  *)
-(*           five repaired defects are seeded back (dev = DevSeeded), and has none when every     *)
-(*           confirmed deviation is repaired (dev = DevRepaired).  All are explored in one run.   *)
+(*           Allowed when the behaviour runs "as the code is" (dev = DevAsIs; Allowed lists the   *)
+(*           signatures of the known findings: none at present) and in Allowed + FormerFindings   *)
+(*           when the repaired defects are seeded back (dev = DevSeeded).  Both are explored in   *)
+(*           one run (Devs).                                                                      *)
 (* StartOk:  the starting documents are sound.                                                    *)
 (* Finish prints a deterministic sample (EmitMod / C11_PICK) of the complete behaviours as JSON    *)
 (* lines for replay into lopdf; EmitViolations prints a sample (EmitModV) of the behaviours whose   *)
@@ -49,6 +55,8 @@ Mid == 10 PgB == 11  CB == 12  PgC == 13 CC == 14  Info == 15  Img == 16  Mask =
 \*       | "page" | "pageref" | "both"
 \*       | "rootx" (the root's XObject category already has the name X<next object number>)
 \*       | "shared" (pages A and B name the SAME Resources object)
+\*       | "pagegs" (inline on the page, its ExtGState category behind a reference)
+\*       | "pagex" (inline on the page, its XObject category already has the name X<next object number>)
 \* ann:  0 | 1 | 2  annotation references on page A;   img: image + mask streams under the catalog
 \* bm:   number of pending bookmarks (on page A)
 St(tree, cont, res, ann, img, bm) == [tree |-> tree, cont |-> cont, res |-> res, ann |-> ann, img |-> img, bm |-> bm]
@@ -64,7 +72,7 @@ StartDoc(s) ==
                \cup (IF s.cont = "arr2" THEN {C2} ELSE {})
                \cup (IF s.cont = "refarr" THEN {CArr} ELSE {})
                \cup (IF s.res # "none" THEN {Font} ELSE {})
-               \cup (IF s.res \in {"rootref", "pageref", "rootcat", "shared"} THEN {ResObj} ELSE {})
+               \cup (IF s.res \in {"rootref", "pageref", "rootcat", "shared", "pagegs"} THEN {ResObj} ELSE {})
                \cup (IF s.ann > 0 THEN {Annot} ELSE {})
                \cup (IF hasMid THEN {Mid} ELSE {})
                \cup (IF hasB THEN {PgB} \cup (IF s.cont = "shared" THEN {} ELSE {CB}) ELSE {})
@@ -81,6 +89,9 @@ StartDoc(s) ==
         pageRes == CASE s.res = "page" -> ("Resources" :> FontRes("F1"))
                      [] s.res = "both" -> ("Resources" :> FontRes("F2"))
                      [] s.res \in {"pageref", "shared"} -> ("Resources" :> Ref(ResObj))
+                     [] s.res = "pagex" -> ("Resources" :> DictO([Font |-> DictO(("F1" :> Ref(Font))),
+                                                                   XObject |-> DictO((XName(MaxOf(ids) + 1).s :> Ref(Font)))]))
+                     [] s.res = "pagegs" -> ("Resources" :> DictO([Font |-> DictO(("F1" :> Ref(Font))), ExtGState |-> Ref(ResObj)]))
                      [] OTHER -> <<>>
         pageResB == IF s.res = "shared" THEN ("Resources" :> Ref(ResObj)) ELSE <<>>
         contA == CASE s.cont \in {"ref", "shared", "undec"} -> ("Contents" :> Ref(C1))
@@ -112,7 +123,8 @@ StartDoc(s) ==
               [] id = CC    -> StreamO(<<>>, <<67, 10>>, FALSE)
               [] id = CArr  -> ArrO(<<Ref(C1)>>)
               [] id = Font  -> DictO([Type |-> NameO("Font")])
-              [] id = ResObj -> IF s.res = "rootcat" THEN DictO(("Im0" :> Ref(Font))) ELSE FontRes("F1")
+              [] id = ResObj -> IF s.res = "rootcat" THEN DictO(("Im0" :> Ref(Font)))
+                                ELSE IF s.res = "pagegs" THEN DictO(("GS0" :> Ref(Font))) ELSE FontRes("F1")
               [] id = Annot -> DictO([Type |-> NameO("Annot")])
               [] id = Info  -> DictO([Title |-> StrO("T")])
               [] id = Img   -> StreamO([Type |-> NameO("XObject"), SMask |-> Ref(Mask)], <<1, 2>>, FALSE)
@@ -147,22 +159,23 @@ StartsQuick ==
 \* focused families: one aspect varied on a small tree
 StartsContent  == {St("A", c, "root", 0, FALSE, 0) : c \in {"ref", "arr1", "arr2", "dup", "refarr", "missing"}}
 StartsContent2 == {St("AmB", c, "rootref", 1, FALSE, 0) : c \in {"ref", "arr1", "arr2", "dup", "refarr", "missing"}}
-StartsRes      == {St("AmB", "ref", r, 0, FALSE, 0) : r \in {"none", "root", "rootref", "rootcat", "page", "pageref", "both"}}
+StartsRes      == {St("AmB", "ref", r, 0, FALSE, 0) : r \in {"none", "root", "rootref", "rootcat", "page", "pageref", "both", "pagegs"}}
 \* the calls of parser_aux.rs: Contents shapes (also shared / not decodable) x Resources placements (also a
 \* name the call is going to pick / a Resources object shared by two pages)
 StartsIns      == {St("AB", c, "rootx", 0, FALSE, 0) : c \in {"ref", "arr2", "refarr", "missing", "shared", "undec"}}
                   \cup {St("AB", c, "shared", 0, FALSE, 0) : c \in {"ref", "shared"}}
+                  \cup {St("AB", "ref", "pagex", 0, FALSE, 0)}
 StartsIns2     == {St("AB", c, r, 0, FALSE, 0) : c \in {"ref", "arr1", "arr2", "dup", "refarr", "missing", "shared", "undec"},
-                                                 r \in {"none", "rootref", "rootcat", "rootx", "shared", "both"}}
+                                                 r \in {"none", "rootref", "rootcat", "rootx", "pagex", "shared", "both"}}
 StartsObj1     == {St("AB", "dup", "rootref", 2, TRUE, 1)}
 StartsObj      == {St("AB", "dup", "rootref", 2, TRUE, 1), St("A", "arr2", "none", 1, FALSE, 1)}
 
-StartsAll3     == {St("AmB", c, "rootref", 1, FALSE, 0) : c \in {"arr1", "dup", "refarr"}}
+StartsAll3     == {St("AmB", c, "rootref", 1, FALSE, 0) : c \in {"dup", "refarr"}}
                   \cup {St("AB", "ref", "both", 2, TRUE, 1), St("mABC", "dup", "pageref", 1, FALSE, 1)}
 
 StartsThorough ==
     {St(t, c, r, 1, FALSE, 0) : t \in {"AB", "AmB"}, c \in {"ref", "arr1", "arr2", "dup", "refarr", "missing"},
-                                r \in {"none", "root", "rootref", "rootcat", "page", "pageref", "both"}}
+                                r \in {"none", "root", "rootref", "rootcat", "page", "pageref", "both", "pagegs"}}
     \cup {St("mABC", c, "rootref", 2, TRUE, 1) : c \in {"ref", "dup", "refarr"}}
     \cup {St("A", c, "root", 2, TRUE, 1) : c \in {"arr1", "missing"}}
 
